@@ -498,6 +498,40 @@ func (X *Exec) genCandidates(fr *Frame, li *loopInfo, entry *State) []*Candidate
 			}})
 		}
 	}
+	// slices held in cells the loop does not assign: "the backing array is what it was at loop entry"
+	// (element heaps are havoced as a whole; this recovers the arrays the loop does not write)
+	{
+		lkey := X.loopKey(fr, li)
+		var sl []*ssa.Alloc
+		for a, c := range fr.Cells {
+			if ms.cells[a] || c == nil {
+				continue
+			}
+			if _, ok := c.Type.Underlying().(*types.Slice); ok {
+				if _, in := entry.Cells[c]; in {
+					sl = append(sl, a)
+				}
+			}
+		}
+		sort.Slice(sl, func(i, j int) bool { return sl[i].Pos() < sl[j].Pos() || (sl[i].Pos() == sl[j].Pos() && sl[i].Name() < sl[j].Name()) })
+		for _, a := range sl {
+			a := a
+			el := fr.Cells[a].Type.Underlying().(*types.Slice).Elem()
+			hn, hs := X.E.ElemHeap(el)
+			if _, mod := ms.heaps[hn]; !mod && !ms.all {
+				continue
+			}
+			out = append(out, &Candidate{Desc: "elements of " + a.Comment + " unchanged", Alive: true, Eval: func(fr *Frame, st *State) *Term {
+				c := fr.Cells[a]
+				le := fr.Exec.loopEntry[lkey]
+				if c == nil || le == nil || st.Cells[c] == nil {
+					return ts.True()
+				}
+				arr := ts.Sel(st.Cells[c], 0)
+				return ts.Eq(ts.Select(fr.Exec.heap(st, hn, hs), arr), ts.Select(fr.Exec.heap(le, hn, hs), arr))
+			}})
+		}
+	}
 	// pairs of modified integer cells: a <= b, a <= b+1
 	if len(allocs) <= 6 {
 		for _, a := range allocs {
@@ -662,9 +696,9 @@ func (X *Exec) execBlock(fr *Frame, b *ssa.BasicBlock, st *State, push func(succ
 		case *ssa.If:
 			c := X.val(fr, i.Cond).T
 			s1 := st.Clone()
-			s1.assume(ts, c)
+			s1.branch(ts, c)
 			s2 := st
-			s2.assume(ts, ts.Not(c))
+			s2.branch(ts, ts.Not(c))
 			push(b.Succs[0], s1)
 			push(b.Succs[1], s2)
 			return
